@@ -23,7 +23,8 @@
    version numbers of the anchor.
 
    Variant "pop_ignores_other_push": a pop on one end treats the deque as stable unless a push is in
-   flight on ITS OWN end (seeded change C17-1).                                                   *)
+   flight on ITS OWN end (seeded change C17-1).  Variant "push_ignores_other_push": the same for pushes
+   (seeded change C17-2): a push overwrites the status of an unstabilised push on the other end.    *)
 EXTENDS Naturals, Sequences, FiniteSets
 CONSTANTS Thread, Prog, Variant, Null
 \* Prog[t]: sequence of operations <<kind, side>>, kind \in {"push","pop"}, side \in {"L","R"}
@@ -69,7 +70,8 @@ Load(t) ==
     /\ pc[t] = "load" /\ lrs' = [lrs EXCEPT ![t] = anchor]
     /\ LET a == anchor  s == side[t]  k == Op(t)[1]
            single == k = "pop" /\ a.l = a.r
-           stableFor == IF Variant = "pop_ignores_other_push" /\ k = "pop"
+           stableFor == IF (Variant = "pop_ignores_other_push" /\ k = "pop")
+                              \/ (Variant = "push_ignores_other_push" /\ k = "push")
                            THEN a.st # PushSt(s) ELSE a.st = "stable" IN
        CASE Near(a, s) = Null /\ k = "pop" -> Finish(t, Null) /\ UNCHANGED cur
          [] Near(a, s) = Null /\ k = "push" -> Goto(t, "cas_empty") /\ UNCHANGED <<opi, popped, cur>>
